@@ -10,7 +10,8 @@ ASSUMPTIONS = ["DATA-reader part; BDAT and whole-conversation cuts are tied by t
 RULE = ("conv probe, abandoned transfers: a chunked transfer given up by RSET / a second HELO, EHLO or LHLO / QUIT, then BDAT LAST, BDAT, DATA: the abandoned message never ends with EOF | " "conv probe: every octet offset at which the client stream of 6 conversations (DATA, BDAT, LMTP, LMTP+BDAT, marker payload, AUTH+DATA) can be cut, backends propagating reader errors; dr probe: every cut point 0..len of every terminated stream over {'.',CR,LF,'a'} up to the tier's length "
         "(source ends with EOF or a scripted error), with and without size limit, 3 read schedules; random streams cut "
         "at random points. non-trivial = the cut stream is non-empty and contains '.', CR or LF")
-THEOREMS = ["C07_data_cut", "C07_eof_complete", "data_monitor_accepts_model"]
+THEOREMS = ["C07_data_cut", "C07_eof_complete", "data_monitor_accepts_model",
+            "C07_bdat_eof_only_after_last", "C07_abandoned_is_reset", "C07_reset_close_no_eof"]
 nontrivial = lambda case, ans: dc.nontrivial_stream(case) if case.startswith('dr') else cc.nontrivial(case, ans)
 signature = lambda case, ans: dc.signature(case, ans) if case.startswith('dr') else cc.signature(case, ans)
 mutate = lambda case, rng: dc.mutate(case, rng) if case.startswith('dr') else []
